@@ -27,7 +27,7 @@ SCEN = {
                                 "capiPrebuilt", "capiPrebuiltFile")] + [("X", "evalDoc"), ("X", "evalDocXerces"), ("X", "xcOneShot")],
     "xsl": [("T", s) for s in ("stream", "callback", "file", "prebuilt", "prebuiltXerces", "parsedStream", "capiData", "capiFile", "capiHandler",
                                 "capiPrebuilt", "capiPrebuiltFile")],
-    "xpath": [("X", s) for s in ("evaluate", "selectNodeList", "selectSingleNode", "createXPath", "xcExpr", "xcExprUtf8", "xcOneShot")] +
+    "xpath": [("X", s) for s in ("evaluate", "selectNodeList", "selectSingleNode", "createXPath", "xcExpr", "xcExprUtf8", "xcExprSjis", "xcExprEucJp", "xcExprLatin1", "xcOneShot")] +
              [("T", s) for s in ("param", "paramChar", "capiParam")],
     "param": [("T", s) for s in ("param", "paramChar", "capiParam")],
 }
